@@ -1481,3 +1481,10 @@ mod tests {
         assert_eq!(index.serialized_size(), deserialized.serialized_size());
     }
 }
+
+// Verification hook (inactive unless built with `--cfg agdb_verif` under Kani).
+#[cfg(all(agdb_verif, kani))]
+#[allow(unused, dead_code, clippy::all)]
+pub(crate) mod verif_h {
+    include!(concat!(env!("AGDB_VERIF_HARNESS"), "/db_h.rs"));
+}
